@@ -415,6 +415,16 @@ func (r *actorRunner) Step(t []string) string {
 			return "bad-op"
 		}
 		return r.decision(func() string {
+			// the next post of the ideal run as it stood BEFORE the operation: the operation may cancel
+			// or replace that very task, and it is carried out by a message to the actor - on a stalled
+			// machine the message can be handled after the post it was meant to prevent.
+			before := r.sim.nextDue()
+			defer func() {
+				if before >= 0 && time.Now().After(r.t0.Add(time.Duration(before)*time.Millisecond).Add(-cancelMargin)) {
+					// counts of this case are not determined any more (flags such as `early` stay)
+					r.invalid = true
+				}
+			}()
 			st, live := r.sim.tell(t[0], m.name, m.a, m.iv, m.k)
 			if !live {
 				// the message goes to the dead letters; nothing answers
